@@ -258,6 +258,36 @@ theorem apply_clean_applies (fl : Flags) (tt : TT) (d0 : Disk) (hc : tt.findRawC
     | true => simp
     | false => simp [h1, h2]
 
+/-- **Never a partially applied tree when the file system fails**: whatever the transform,
+`resolve_conflicts; apply` with a failure in the mover phases raises and leaves the disk it
+started from (the mover's rollback — property C13 — is part of the definition of
+`applyFaulted`; the real code is compared with it for every failing `os.rename`). -/
+theorem faulted_run_keeps_disk (fl : Flags) (tt : TT) :
+    ∃ e, tt.resolveAndApplyFaulted fl = .raised e tt.baseDisk := by
+  unfold TT.resolveAndApplyFaulted
+  split
+  · unfold TT.applyFaulted
+    split
+    · exact ⟨_, rfl⟩
+    · split
+      · exact ⟨_, rfl⟩
+      · exact ⟨_, rfl⟩
+  · exact ⟨_, rfl⟩
+  · exact ⟨_, rfl⟩
+
+/-- a conflict-free transform whose delta can be generated gets as far as the mover phases:
+the failure it reports is the rename failure, not a refusal -/
+theorem faulted_apply_of_clean (fl : Flags) (tt : TT) (d0 : Disk) (hc : tt.findRawConflicts fl = [])
+    (hm : fl.git = true ∨ ∃ dl, tt.generateDelta fl = .ok dl) :
+    tt.applyFaulted fl d0 = .raised .renameFailed d0 := by
+  unfold TT.applyFaulted
+  simp only [hc, List.isEmpty_nil, Bool.not_true, Bool.false_eq_true, if_false]
+  rcases hm with hg | ⟨dl, h1⟩
+  · simp [hg]
+  · cases hgit : fl.git with
+    | true => simp
+    | false => simp [h1]
+
 def Outcome.raisedWith : Outcome → Err → Bool
   | .raised e _, e' => e == e'
   | _, _ => false
